@@ -48,6 +48,8 @@ Definition gen_body_tracks : ablk :=
 Definition gen_body_rfkicks : ablk :=
   AApp TRFKicks SArgLen
   (ADone).
+(* the statements of the _appendData template: the dataset is extended once and written once, no control flow *)
+Definition gen_appenddata_shape : list adstmt := [DOther; DOther; DOther; DOther; DExtend; DOther; DOther; DOther; DWrite].
 (* the conditions the translator cannot evaluate from the AppendType / bool parameters: (n, method, source text, members of
    the object they read) - their values are quantified over (C14_append_records_all_or_nothing) *)
 Definition gen_append_opaque : list (Z * string * string * list string) :=
